@@ -37,7 +37,7 @@ func init() {
 	})
 }
 
-func toTongo(c *enum.Ctx, rc *cell.Cell) *tb.Cell {
+func ToTongo(c *enum.Ctx, rc *cell.Cell) *tb.Cell {
 	if !conv.HasSpecial(rc) {
 		t, err := conv.ToTongo(rc, true)
 		if err != nil {
@@ -142,11 +142,11 @@ func stateInitToTongo(c *enum.Ctx, s te.StateInit) tlb.StateInit {
 	}
 	if s.Code != nil {
 		t.Code.Exists = true
-		t.Code.Value.Value = *toTongo(c, s.Code)
+		t.Code.Value.Value = *ToTongo(c, s.Code)
 	}
 	if s.Data != nil {
 		t.Data.Exists = true
-		t.Data.Value.Value = *toTongo(c, s.Data)
+		t.Data.Value.Value = *ToTongo(c, s.Data)
 	}
 	return t
 }
@@ -172,10 +172,10 @@ func compare(c *enum.Ctx, name string, v any, want *cell.Cell) {
 	}
 }
 
-var gramsAlphabet = []uint64{0, 1, 127, 128, 255, 256, 32767, 32768, 65535, 65536, 1<<23 - 1, 1 << 23, 1<<24 - 1, 1 << 24, 10_000_000, 1<<31 - 1, 1 << 31, 3_000_000_000, 1<<32 - 1, 1 << 32,
+var GramsAlphabet = []uint64{0, 1, 127, 128, 255, 256, 32767, 32768, 65535, 65536, 1<<23 - 1, 1 << 23, 1<<24 - 1, 1 << 24, 10_000_000, 1<<31 - 1, 1 << 31, 3_000_000_000, 1<<32 - 1, 1 << 32,
 	1<<39 - 1, 1 << 39, 1<<40 - 1, 1 << 40, 1<<47 - 1, 1<<48 - 1, 1 << 48, 1<<55 - 1, 1<<56 - 1, 1 << 56, 1<<63 - 1, 1 << 63, 1<<63 + 5, 1<<64 - 1}
 
-func chooseAddr(c *enum.Ctx, seed int, internal bool) te.Addr {
+func ChooseAddr(c *enum.Ctx, seed int, internal bool) te.Addr {
 	// default: std address in workchain 0
 	var a te.Addr
 	kinds := []int{2, 3, 0, 1}
@@ -206,7 +206,7 @@ func chooseAddr(c *enum.Ctx, seed int, internal bool) te.Addr {
 	return a
 }
 
-func cellPool(seed int) []*cell.Cell {
+func CellPool(seed int) []*cell.Cell {
 	leaf := cell.MustNew([]byte{0xAB}, 8, nil, false)
 	lib := cell.NewLibrary([32]byte{9, 9, 9})
 	// (no pruned branch here: a parent of a pruned branch has a non-zero level, which in-memory construction
@@ -376,8 +376,8 @@ func harnesses(r *fw.Run) []fw.HarnessSpec {
 	})
 
 	add("grams-and-addresses", 2, func(c *enum.Ctx) {
-		g := gramsAlphabet[c.ChooseFree(len(gramsAlphabet))]
-		a := chooseAddr(c, seed, false)
+		g := GramsAlphabet[c.ChooseFree(len(GramsAlphabet))]
+		a := ChooseAddr(c, seed, false)
 		key := fmt.Sprintf("ga/%d/%+v", g, a)
 		c.Case([]byte(key), true)
 		c.Sample(map[string]any{"grams": g, "address_kind": a.Kind, "anycast": a.Anycast != nil, "addr_bits": len(a.Bits)})
@@ -394,7 +394,7 @@ func harnesses(r *fw.Run) []fw.HarnessSpec {
 		}
 	})
 
-	pool := cellPool(seed)
+	pool := CellPool(seed)
 	add("state-init", 1, func(c *enum.Ctx) {
 		var s te.StateInit
 		mask := c.ChooseFree(16)
@@ -429,22 +429,22 @@ func harnesses(r *fw.Run) []fw.HarnessSpec {
 		m.Info.Kind = c.ChooseFree(3)
 		switch m.Info.Kind {
 		case 0:
-			m.Info.Src = chooseAddr(c, seed, true)
-			m.Info.Dest = chooseAddr(c, seed+7, true)
+			m.Info.Src = ChooseAddr(c, seed, true)
+			m.Info.Dest = ChooseAddr(c, seed+7, true)
 			f := c.Choose(8)
 			m.Info.IhrDisabled, m.Info.Bounce, m.Info.Bounced = f&1 != 0, f&2 != 0, f&4 != 0
-			m.Info.Value = gramsAlphabet[c.Choose(len(gramsAlphabet))]
-			m.Info.IhrFee = gramsAlphabet[c.Choose(len(gramsAlphabet))]
-			m.Info.FwdFee = gramsAlphabet[c.Choose(len(gramsAlphabet))]
+			m.Info.Value = GramsAlphabet[c.Choose(len(GramsAlphabet))]
+			m.Info.IhrFee = GramsAlphabet[c.Choose(len(GramsAlphabet))]
+			m.Info.FwdFee = GramsAlphabet[c.Choose(len(GramsAlphabet))]
 			m.Info.Lt = []uint64{0, 1, 1<<64 - 1}[c.Choose(3)]
 			m.Info.At = []uint32{0, 1, 1<<32 - 1}[c.Choose(3)]
 		case 1:
-			m.Info.Src = chooseAddr(c, seed, false)
-			m.Info.Dest = chooseAddr(c, seed+7, true)
-			m.Info.Import = gramsAlphabet[c.Choose(len(gramsAlphabet))]
+			m.Info.Src = ChooseAddr(c, seed, false)
+			m.Info.Dest = ChooseAddr(c, seed+7, true)
+			m.Info.Import = GramsAlphabet[c.Choose(len(GramsAlphabet))]
 		case 2:
-			m.Info.Src = chooseAddr(c, seed, true)
-			m.Info.Dest = chooseAddr(c, seed+7, false)
+			m.Info.Src = ChooseAddr(c, seed, true)
+			m.Info.Dest = ChooseAddr(c, seed+7, false)
 			m.Info.Lt = []uint64{0, 1, 1<<64 - 1}[c.Choose(3)]
 			m.Info.At = []uint32{0, 1, 1<<32 - 1}[c.Choose(3)]
 		}
@@ -493,7 +493,7 @@ func harnesses(r *fw.Run) []fw.HarnessSpec {
 			tm.Init.Value.Value = stateInitToTongo(c, *m.Init)
 		}
 		tm.Body.IsRight = m.BodyRef
-		tm.Body.Value = tlb.Any(*toTongo(c, m.Body))
+		tm.Body.Value = tlb.Any(*ToTongo(c, m.Body))
 		compare(c, fmt.Sprintf("Message(kind %d)", m.Info.Kind), tm, w)
 		if w2, err := (&te.B{}).Info(m.Info).Cell(); err == nil {
 			compare(c, fmt.Sprintf("CommonMsgInfo(kind %d)", m.Info.Kind), tm.Info, w2)
@@ -508,7 +508,7 @@ func harnesses(r *fw.Run) []fw.HarnessSpec {
 				s := stateInitToTongo(c, *m.Init)
 				init = &s
 			}
-			em, err := ton.CreateExternalMessage(id, toTongo(c, m.Body), init, tlb.VarUInteger16(*new(big.Int).SetUint64(m.Info.Import)))
+			em, err := ton.CreateExternalMessage(id, ToTongo(c, m.Body), init, tlb.VarUInteger16(*new(big.Int).SetUint64(m.Info.Import)))
 			if err != nil {
 				c.Fail("CreateExternalMessage:err", "%v", err)
 			} else {
